@@ -677,7 +677,8 @@ fn piece(rng: &mut Rng, k: usize, nfiles: usize, disjoint: bool, mods: &[String]
     if rng.chance(1, 14) {
         // an annotated global defined here / a local in a file that may declare no type itself, inferred from it
         return if rng.chance(1, 2) {
-            format!("---@type {}\nGd{other} = nil\n", if rng.chance(1, 2) { "integer" } else { "string" })
+            // one annotated type per global name and variant parity (no conflicting re-annotation inside a workspace)
+            format!("---@type {}\nGd{other} = nil\n", if other % 2 == 0 { "integer" } else { "string" })
         } else {
             format!("local t{k} = Gd{k}\nprint(t{k})\nlocal u{k} = Gd{other}\nprint(u{k})\n")
         };
